@@ -80,7 +80,7 @@ func c17Place(pos, long string, s1, s2 string, finalNL bool) string {
 	return t
 }
 
-var c17Cmds = []string{"generate segment", "format directive", "generate include pairs", "generate block", "compare", "generate definition", "generate definition repeated", "generate entry", "generate standard input", "generate include", "generate include-except", "generate cmdline", "format", "renumber-tests", "update-copyright", "update"}
+var c17Cmds = []string{"generate segment", "format directive", "generate include pairs", "generate block", "compare", "generate definition", "generate definition repeated", "generate entry", "generate prefix and suffix lines", "format header without blank line", "generate standard input", "generate include", "generate include-except", "generate cmdline", "format", "renumber-tests", "update-copyright", "update"}
 
 func C17(r *core.Run) {
 	dir := ""
@@ -149,6 +149,33 @@ func C17(r *core.Run) {
 			}
 			ok, why := matchAll(o.Out, "x"+long, "sentinelone", "sentineltwo")
 			return verdict(ok, false, true, why, len(o.Out))
+		case "generate prefix and suffix lines":
+			// the long line is a prefix (positions first / middle) or suffix (last) line of a file that also has a definition
+			hdr := "##!^ p" + long
+			want := "p" + long + "sentinelone"
+			if c.Pos == "last" {
+				hdr, want = "##!$ s"+long, "sentineltwo"+"s"+long
+			}
+			o := root.Generate("##!> define d dd\n" + c17Place(c.Pos, hdr, "sentinelone", "sentineltwo", c.FinalNL))
+			if o.Kind != inproc.OK {
+				return verdict(false, true, true, "", 0)
+			}
+			ok, why := matchAll(o.Out, want)
+			return verdict(ok, false, true, why, len(o.Out))
+		case "format header without blank line":
+			p := filepath.Join(wd, "regex-assembly/123456.ra")
+			x := raHeader1 + "\n" + raHeader2 + "\n" + c17Place(c.Pos, "x"+long, "alpha", "omega", c.FinalNL)
+			os.WriteFile(p, []byte(x), 0o644)
+			fr := root.Format(p, false)
+			b, _ := os.ReadFile(p)
+			if fr.Kind != inproc.OK {
+				return verdict(false, true, string(b) == x, "format failed but the file changed", len(b))
+			}
+			okLines := true
+			for _, l := range []string{"x" + long, "alpha", "omega"} {
+				okLines = okLines && strings.Contains("\n"+string(b), "\n"+l+"\n")
+			}
+			return verdict(okLines, false, true, fmt.Sprintf("formatted file has %d bytes, input %d: lines lost", len(b), len(x)), len(b))
 		case "generate standard input":
 			// the same through the real command, the text arriving on standard input
 			cli := core.RunCLI(r.Crs, wd, c17Place(c.Pos, "x"+long, "sentinelone", "sentineltwo", c.FinalNL), nil, "-d", wd, "regex", "generate", "-")
